@@ -34,13 +34,17 @@ def run(tier, seed, replay):
     for i in range(nt):
         ops = ic.isa_trace_ops(rng, nimg, ninsn)
         traces.append(vlib.run_scenario(ops, "c15-isa-%d" % i)[0])
+    # the count must not depend on the key history: per-edge traces with the continue / interrupt keys pressed at arbitrary edges of running programs
+    etraces = [vlib.run_scenario(ic.edge_trace_ops(rng, 3, 400), "c15-edge-%d" % i)[0] for i in range(2 if tier == "quick" else 8)]
+    eres = vlib.validate_traces(etraces, cfg="TraceMachine")
+    nedge = ic.report_trace_results(v, etraces, eres, "costedgetrace", "clock-edge-level (key history)")
     res = vlib.validate_traces(traces, cfg="TraceIsaCost")
     nisa = ic.report_trace_results(v, traces, res, "costtrace", "instruction-cost")
     cov = {
         "states": states, "transitions": trans, "traces_validated_against_impl": len(traces),
         "samples": [{"isa_trace": traces[0], "events": res[0]["states"]}, {"suites": per_suite}],
-        "isa_level_events_validated": nisa, "suites": per_suite, "exhaustive": False,
+        "isa_level_events_validated": nisa, "edge_level_events_validated": nedge, "suites": per_suite, "exhaustive": False,
         "rule": "same BFS as C01 with the invariant CostOk (edges between boundaries = Isa!cyc = 1 + body words of the form + one wait per access "
-                "to an address <= 0xEF); code bound by validating the edge count of every instruction of random sequences on the real machine",
+                "to an address <= 0xEF); code bound by validating the edge count of every instruction of random sequences on the real machine (incl. instructions fetched from the input registers and across 0xEF/0xF0) and per-edge traces with continue / interrupt keys at arbitrary edges",
     }
     return v.finish("model_checking", cov, ["TLC", "per-form word counts in Isa.tla were read off the decoded control store (DESIGN Appendix A)"])
